@@ -186,6 +186,21 @@ def build_case(seed, nbuf):
         maxlen = C1.struct_maxlen(s)
         oks = C20.ok_buffers(rnd, I, s, maxlen, want=nbuf, tries=150)
         deps, allrefs = struct_refs(s)
+        # variants in which enum fields hold declared (named) values
+        extra = []
+        for b in oks[:3]:
+            nb = bytearray(b)
+            changed = False
+            for f in s.fields:
+                t = f.typ
+                if t is not None and t.kind == "enum" and not t.dims and f.start[0] == "n" and f.size[0] == "n" and f.start[1] + f.size[1] <= len(nb):
+                    val = rnd.choice(t.target.values)[1]
+                    bo = RI.effective_byte_order(RI.StructView(I, s, {}, b), f)
+                    nb[f.start[1] : f.start[1] + f.size[1]] = (val % (1 << (8 * f.size[1]))).to_bytes(f.size[1], "big" if bo == "BigEndian" else "little")
+                    changed = True
+            if changed and RI.StructView(I, s, {}, bytes(nb)).ok():
+                extra.append(bytes(nb))
+        oks = oks + extra
         for b in oks:
             v = RI.StructView(I, s, {}, b)
             size = v.size()
